@@ -31,7 +31,7 @@ type c11Case struct {
 	Ops  []string    `json:"ops"` // writeto write reader reader1 updatereader tofile totmp skipmw send failsink:<k> failprod:<producer>
 }
 
-var c11Ops = []string{"writeto", "write", "reader", "reader1", "updatereader", "partialupdate", "tofile", "totmp", "skipmw", "send", "failsink", "failprod"}
+var c11Ops = []string{"writeto", "write", "reader", "reader1", "updatereader", "partialupdate", "tofile", "tofile:over", "totmp", "skipmw", "send", "failsink", "failprod"}
 
 func canon8bit(s *gen.MsgSpec) {
 	for i := range s.Parts {
@@ -179,6 +179,10 @@ func runC11Case(r *ev.Run, c c11Case, env *gen.Env) {
 					return
 				}
 				name := f.Name()
+				if arg == "over" {
+					// the path already holds another, longer file (a re-used spool path): it has to be replaced
+					_, _ = f.Write(bytes.Repeat([]byte("stale content of an older, longer file\r\n"), 20000))
+				}
 				_ = f.Close()
 				operr = m.WriteToFile(name)
 				if operr == nil {
@@ -364,7 +368,7 @@ func runC11(r *ev.Run, rep *ev.ReplayDoc) ev.Summary {
 	env.Dir = d
 	defer env.Cleanup()
 	sum := ev.Summary{
-		Rule: "seeded message specs (all file sources incl. os files, read-seekers on os.File, fs.FS, templates; all file encodings; S/MIME on a share) x operation sequences of length 2-5 over {WriteTo, Write, NewReader+ReadAll, 7-byte Reads, UpdateReader, a Reader read in part and then refreshed by UpdateReader, WriteToFile, WriteToTempFile, WriteToSkipMiddleware, Send via reference server, failing-sink render, failing-producer render}; all pairs of operations enumerated, longer sequences sampled. Every successful output must equal the first successful output byte for byte. non-trivial = message has a file or >=2 parts; distinct by (shape, ops)",
+		Rule: "seeded message specs (all file sources incl. os files, read-seekers on os.File, fs.FS, templates; all file encodings; S/MIME on a share) x operation sequences of length 2-5 over {WriteTo, Write, NewReader+ReadAll, 7-byte Reads, UpdateReader, a Reader read in part and then refreshed by UpdateReader, WriteToFile (to a new path and over an existing longer file), WriteToTempFile, WriteToSkipMiddleware, Send via reference server, failing-sink render, failing-producer render}; all pairs of operations enumerated, longer sequences sampled. Every successful output must equal the first successful output byte for byte. non-trivial = message has a file or >=2 parts; distinct by (shape, ops)",
 		Assumptions: []string{
 			"for Send the payload is what the reference server committed (dot-unstuffed); contents of 8bit/7bit entities are canonical CRLF so that SMTP's bare-LF canonicalisation does not blur the comparison",
 			"S/MIME: the outer boundary and the signature legitimately change per render; the top-level header (boundary masked) and the signed entity are compared",
@@ -381,7 +385,7 @@ func runC11(r *ev.Run, rep *ev.ReplayDoc) ev.Summary {
 		return sum
 	}
 	// all ordered pairs of the basic operations on a fixed set of specs, then sampled sequences
-	basic := []string{"writeto", "write", "reader", "reader1", "updatereader", "partialupdate:64", "tofile", "totmp", "skipmw", "send", "failsink:100", "failprod:*"}
+	basic := []string{"writeto", "write", "reader", "reader1", "updatereader", "partialupdate:64", "tofile", "tofile:over", "totmp", "skipmw", "send", "failsink:100", "failprod:*"}
 	var cases []c11Case
 	nspec := r.Pick(6, 40)
 	for si := 0; si < nspec; si++ {
